@@ -148,6 +148,9 @@ class SymT(BaseT):
         res = []
         zd = E.zdag
         E.zdag = False
+        from .core import NaNSym
+        if any(isinstance(x, NaNSym) for x in g.ravel()):
+            return s._rec(label, "violated", "result contains nan", model={}, n=g.size)
         try:
             for a, b in zip(g.ravel(), w.ravel()):
                 d = C(a) - C(b)
